@@ -52,12 +52,24 @@ class World:
             it.opts.clear()
             it.opts.update(saved)
         del it.events[:]
+        from ..absint import Frame
+        fr = Frame(None, rc.module, {})
         for k in ("clients", "devices", "blob_routing"):
             if k not in self.router.attrs:
-                raise Undecided(f"Router.__init__ does not create '{k}'")
-        self.router.attrs["clients"].label = "router.clients"
-        self.router.attrs["devices"].label = "router.devices"
-        br = self.router.attrs["blob_routing"]
+                # not an instance attribute: a class-level object (shared by every router of the process, as in Python)
+                v = it.get_attr(self.router, k, None, fr)
+                if not isinstance(v, (Lst, Dct)):
+                    raise Undecided(f"the router has no table '{k}'")
+                self.shared = getattr(self, "shared", []) + [k]
+        del it.events[:]
+
+        def tab(k):
+            return self.router.attrs[k] if k in self.router.attrs else it.get_attr(self.router, k, None, fr)
+
+        self.table = tab
+        tab("clients").label = "router.clients"
+        tab("devices").label = "router.devices"
+        br = tab("blob_routing")
         for i in reg:
             d = br.get(self.clients[i])
             if d is None:
@@ -68,7 +80,7 @@ class World:
 
     def policy_snapshot(self):
         out = {}
-        for k, d in self.router.attrs["blob_routing"].pairs:
+        for k, d in self.table("blob_routing").pairs:
             out[show(k)] = {show(kk): show(vv) for kk, vv in d.pairs} if isinstance(d, Dct) else show(d)
         return out
 
